@@ -24,9 +24,9 @@ AgreeRT(e) == /\ Has(e.out, "ok") /\ e.out.ok
 \* C06: decode -> encode -> decode is a fixpoint, the second encoding reproduces the first
 AgreeFix(e) == LET d == Dec6(e["in"]) IN
                /\ Has(e.out, "ok") /\ Agrees6(d, e.out.ok, Val(e.out))
-               /\ e.out.ok => /\ LET d1 == Dec6(e.b1) IN d1.st # "no" /\ Same(d1.v, e.out.val)   \* the re-encoding reads (by the RFC decoder) as the same message
+               /\ e.out.ok => /\ LET d1 == Dec6(e.b1) IN d1.st # "no" /\ Same(d1.v, Canon6(e.out.val))   \* the re-encoding reads (by the RFC decoder) as the same message
                               /\ Has(e.out2, "ok") /\ e.out2.ok
-                              /\ Same(e.out2.val, e.out.val)            \* ... and decodes to an equal message
+                              /\ Same(e.out2.val, Canon6(e.out.val))            \* ... and decodes to an equal message
                               /\ e.b2 = e.b1                        \* encoding again reproduces the bytes
 
 Agree(e) == CASE e.op = "Dec6" -> AgreeDec(e["in"], e.out)
